@@ -269,7 +269,9 @@ func (it *TxnIterator) materializeEntry(entry *kv.Entry, cf kv.ColumnFamily, use
 	it.entry.Version = version
 	if kv.IsValuePtr(entry) {
 		if it.opt.KeyOnly {
-			it.entry.Value = entry.Value
+			// Copy the pointer bytes: it.entry.Value is reused as an append buffer for
+			// later inline values and must not alias memtable / table memory.
+			it.entry.Value = append(it.entry.Value[:0], entry.Value...)
 			it.item.valueBuf = it.item.valueBuf[:0]
 		} else {
 			var vp kv.ValuePtr
